@@ -12,7 +12,7 @@
 (* The reference for C02/C06 is the specification's own LALR(1) table,       *)
 (* itself checked against the LR-independent bounded language (OracleOK).    *)
 (***************************************************************************)
-EXTENDS LRDriver, Earley, Json, FiniteSetsExt
+EXTENDS LRDriver, Earley, PrecClimb, Json, FiniteSetsExt
 
 CONSTANTS KMax,     \* longest input considered
           Limit,    \* at most this many inputs per grammar
@@ -23,7 +23,11 @@ G(i)  == Obs[i].g
 Ok(i) == Obs[i].outcome = "ok"
 OkIdx == {i \in DOMAIN Obs : Ok(i)}
 ImplState(i, n) == SeqRange(Obs[i].states[n])
+HasCol(i, name) == \E c \in DOMAIN Obs[i].syms : Obs[i].syms[c] = name
 Col(i, name) == CHOOSE c \in DOMAIN Obs[i].syms : Obs[i].syms[c] = name
+\* A declared symbol for which the implementation has no column can be neither shifted nor entered:
+\* its cells read as error (a token the implementation lost therefore shows up as a language difference).
+Cell(i, n, name) == IF HasCol(i, name) THEN Obs[i].table[n][Col(i, name)] ELSE Obs[i].errcode
 AllTerms(i) == DeclTerms(G(i)) \cup {End}
 
 Decode(i, v) ==
@@ -32,9 +36,9 @@ Decode(i, v) ==
   ELSE IF v > 0 THEN [k |-> "s", n |-> v + 1]
   ELSE [k |-> "r", n |-> 1 - v]
 ImplTab(i) ==
-  [ action |-> TLCEval([n \in DOMAIN Obs[i].table |-> TLCEval([a \in AllTerms(i) |-> Decode(i, Obs[i].table[n][Col(i, a)])])]),
+  [ action |-> TLCEval([n \in DOMAIN Obs[i].table |-> TLCEval([a \in AllTerms(i) |-> Decode(i, Cell(i, n, a))])]),
     goto   |-> TLCEval([n \in DOMAIN Obs[i].table |-> TLCEval([A \in NT(G(i)) \ {G(i).rules[1].lhs} |->
-                 LET v == Obs[i].table[n][Col(i, A)] IN IF v = Obs[i].errcode \/ v <= 0 THEN 0 ELSE v + 1])]) ]
+                 LET v == Cell(i, n, A) IN IF v = Obs[i].errcode \/ v <= 0 THEN 0 ELSE v + 1])]) ]
 
 RECURSIVE Pow(_, _)
 Pow(b, e) == IF e = 0 THEN 1 ELSE b * Pow(b, e - 1)
@@ -89,6 +93,19 @@ C06_NoFalseAccept == c.status = "accept" => ERef.status = "accept"
 \* reductions, same number of tokens fetched.
 C04_Behaviour == (Tabs[g].spec.decided /\ ~CFg /\ c.status # "run" /\ Ref.status # "diverge") =>
                     (c.status = Ref.status /\ c.reds = Ref.reds /\ c.pos = Ref.pos)
+\* C04, last sentence, against a reference that knows nothing about LR: on a grammar of operator shape the
+\* recorded table groups every expression as precedence climbing over the declarations does (PrecClimb.tla)
+Shape == TLCEval([i \in DOMAIN Obs |-> Ok(i) /\ OpShape(G(i))])
+CRef == Climb(G(g), input)
+C04_Climb == (Shape[g] /\ c.status # "run") =>
+                /\ c.status \in {"accept", "error"}
+                /\ (c.status = "accept") <=> (CRef.status = "accept")
+                /\ (c.status = "accept") => c.reds = CRef.reds
+\* ... and so does the specification's own resolved table (cross-validation of CellAct against PrecClimb).
+\* (no LET here: TLC evaluated the LET form of this invariant ten times slower)
+C04_ClimbSpec == (Shape[g] /\ c = InitCfg) =>
+                /\ (Ref.status = "accept") <=> (CRef.status = "accept")
+                /\ (Ref.status = "accept") => Ref.reds = CRef.reds
 Terminates    == <>(c.status # "run")
 
 \* Oracle self-check: Earley membership = membership in the bounded language
@@ -103,5 +120,5 @@ OracleOK ==
 \* one line per grammar for the evidence file (evaluated on the empty input's
 \* initial state; always true)
 Report == (c = InitCfg /\ input = <<>>) =>
-            PrintT(<<"GRAMMAR", g, Tabs[g].spec.conflictfree, Cardinality(Inputs(g)), Tabs[g].spec.nstates, Tabs[g].spec.decided>>)
+            PrintT(<<"GRAMMAR", g, Tabs[g].spec.conflictfree, Cardinality(Inputs(g)), Tabs[g].spec.nstates, Tabs[g].spec.decided, Shape[g]>>)
 =============================================================================
